@@ -498,6 +498,17 @@ func (n *Node) cbNewBlock(c *dbft.Context[vt.H]) dbft.Block[vt.H] {
 		} else {
 			b = pb.Final()
 		}
+		if f := n.W.Cfg.ShareBoundFrom; f > 0 && c.BlockIndex >= f {
+			b.ShareBound = true
+			m := c.M()
+			for i, p := range c.PreCommitPayloads {
+				if p != nil && p.ViewNumber() == c.ViewNumber && m > 0 && i < 64 {
+					b.Shares |= 1 << uint(i)
+					m--
+				}
+			}
+			n.W.Stat("share_bound_block_built")
+		}
 	} else {
 		b = &vt.Block{Header: vt.Header{Idx: c.BlockIndex, Prev: c.PrevHash, Ts: c.Timestamp, Nonce: c.Nonce, TxHashes: append([]vt.H(nil), c.TransactionHashes...)}}
 	}
